@@ -44,7 +44,7 @@ func SPP(pointer uint16) Message {
 func SongSelect(song uint8) Message {
 	// TODO check - it is a guess
 	//return NewMessage([]byte{byteSysSongSelect, song})
-	return []byte{byteSysSongSelect, song}
+	return []byte{byteSysSongSelect, song & 0x7F}
 }
 
 /*
@@ -75,5 +75,5 @@ func MTC(m uint8) Message {
 	// TODO check - it is a guess
 	// TODO provide a better abstraction for MTC
 	//return NewMessage([]byte{byteMIDITimingCodeMessage, byte(m)})
-	return []byte{byteMIDITimingCodeMessage, byte(m)}
+	return []byte{byteMIDITimingCodeMessage, byte(m) & 0x7F}
 }
